@@ -264,6 +264,17 @@ fn with_watchdog<F: FnOnce() -> String + Send + 'static>(f: F, ms: u64) -> Strin
 }
 
 fn main() {
+    // CCDRV_SAME_THREAD: every request of the batch is served by ONE thread (state kept in thread-locals by the library is
+    // then shared between the compilations of a batch, as it is in a downstream compiler that builds several files)
+    if std::env::var("CCDRV_SAME_THREAD").is_ok() {
+        let h = std::thread::Builder::new().stack_size(256 << 20).spawn(|| serve(true)).unwrap();
+        let _ = h.join();
+        std::process::exit(0);
+    }
+    serve(false);
+}
+
+fn serve(direct: bool) {
     // keep the location of the last panic of each thread (reported with the panic message)
     std::panic::set_hook(Box::new(|info| {
         let loc = info.location().map(|l| format!("{}:{}", l.file(), l.line())).unwrap_or_default();
@@ -284,7 +295,7 @@ fn main() {
                     if raw.is_empty() { Vec::new() } else { raw.split('\x1f').map(|s| s.to_string()).collect() }
                 };
                 let src = unhex(f[3]);
-                with_watchdog(move || do_compile(argv, src), timeout_ms)
+                if direct { do_compile(argv, src) } else { with_watchdog(move || do_compile(argv, src), timeout_ms) }
             }
             "B" | "O" if f.len() >= 3 => {
                 let spec = String::from_utf8_lossy(&unhex(f[2])).to_string();
